@@ -15,7 +15,7 @@ import (
 
 func init() {
 	register(&PropDef{
-		ID: "C06", Level: "exploration", Quick: 12000, Thorough: 1500000, QuickCap: 110,
+		ID: "C06", Level: "exploration", Quick: 48000, Thorough: 1500000, QuickCap: 110,
 		Rule:   "each run = 2-4 client tasks x 1-5 operations (MutateRow with 1-3 valid/invalid mutations, MutateRows, CheckAndMutateRow with predicates over the contended column, ReadModifyWriteRow increments/appends, single-row reads) on 1-2 rows of one table, interleaved by the seeded scheduler at every lock operation, engine access and response marshalling; the recorded history (stamped with the global event counter) is checked per row with porcupine against the reference model, plus sum / single-winner invariants for the directed shapes; distinct = hash of the (task, scheduling point) trace and responses; non-trivial = at least one preemption",
 		Real:   []string{"bttest MutateRow, MutateRows, CheckAndMutateRow, ReadModifyWriteRow, ReadRows", "btree / goleveldb-mem / goleveldb-disk engines (Get/Put/Delete through the Rows seam)"},
 		Stub:   []string{"sync.Mutex/RWMutex of server and table (cooperative equivalents with the same admission rules)", "gRPC transport (direct calls; unary responses are marshalled at a later scheduling point than the handler's return)", "server clock (constant within a run)"},
